@@ -56,6 +56,13 @@ def run_shard(sh):
                 for comment in (None, '#'):
                     cases.append({'op': 'readcuts', 'hex': data.hex(), 'encoding': 'utf-8', 'dlm': dlm, 'policy': policy, 'has_header': has_header, 'comment_prefix': comment, 'maxcuts': sh['maxcuts']})
                     meta.append((s_, s_, 'utf-8', dlm, policy, has_header, comment))
+    elif sh['kind'] == 'longcuts':
+        s_ = sh['text']
+        data = s_.encode('utf-8')
+        for policy, dlm in (('quoted', ','), ('quoted_rfc', ','), ('simple', ',')):
+            cases.append({'op': 'readcutlist', 'hex': data.hex(), 'encoding': 'utf-8', 'dlm': dlm, 'policy': policy, 'has_header': False, 'comment_prefix': None,
+                          'cuts': sh['cuts'], 'uniform': sh['uniform']})
+            meta.append((s_, s_, 'utf-8', dlm, policy, False, None))
     elif sh['kind'] == 'utf8':
         s = sh['sample']
         data = s.encode('utf-8')
@@ -73,6 +80,8 @@ def run_shard(sh):
         res.evaluations += out['executions'] + 2
         res.traces += out['executions'] + 2
         res.states += (1 << n) if n <= 12 else out['executions'] + 1
+        if n > 100:
+            res.feat('long_input_deliveries', out['executions'])
         res.transitions += out['chunks'] + 1
         case = {'text': orig, 'encoding': enc, 'dlm': dlm, 'policy': policy, 'has_header': has_header, 'comment': comment}
         base = js_result_to_ref_shape(out['base'], has_header)
@@ -178,6 +187,14 @@ def main(tier, seed):
             shards.append({'kind': 'ascii', 'syms': s2, 'policy': pol, 'first': f1, 'minlen': 1, 'maxlen': 5 if T else 4, 'slow': True})
     for s in SAMPLES:
         shards.append({'kind': 'utf8', 'sample': s})
+    # long inputs under every single cut (first 400 positions + every 37th) and uniform chunk sizes: chunks of 128+ / 1024+ bytes, lines delivered in dozens of reads
+    crlf = ''.join('row%d,"v %d"\r\n' % (i, i) for i in range(40))
+    cronly = ''.join('r%d,x\r' % i for i in range(60))
+    multi = 'é€😀,ж\n' + ''.join('line%04d,abcdefghij\n' % i for i in range(140))
+    longline = 'h1,h2\n' + 'a' * 700 + ',"' + 'b' * 700 + '"\r\nlast,row\r\n'
+    for t in (crlf, cronly, multi, longline):
+        nb = len(t.encode('utf-8'))
+        shards.append({'kind': 'longcuts', 'text': t, 'cuts': sorted(set(list(range(1, min(nb, 400))) + list(range(400, nb, 37)))), 'uniform': [1, 2, 3, 7, 64, 127, 128, 129, 1023, 1024, 1025]})
     from vf.checks import c12 as _c12
     for t in _c12.MEDIUM_TEXTS + ['é€,😀\r\n"ж\r\nж",x\r\n#é\r\nlast,€']:
         shards.append({'kind': 'medium', 'text': t, 'maxcuts': 2})
@@ -191,7 +208,7 @@ def main(tier, seed):
              'states = delivery-tree nodes, transitions = chunks delivered; 64 KiB boundary files for every internal offset of 7 critical sequences; non-trivial = multi-chunk delivery of an input containing CR, a quote or a multi-byte character',
         assumptions=['the reader sees its input only through the data/end events of the stream; each prescribed piece is delivered in its own event-loop turn', 'RefCSV ref_read is the statement of the record rules'],
         extra={'bounds': {'ascii_len': 6 if T else 5, 'samples': SAMPLES}},
-        min_features={'multibyte_inputs': 100, 'crlf_inputs': 500, 'bigfile_cases': 20})
+        min_features={'multibyte_inputs': 100, 'crlf_inputs': 500, 'bigfile_cases': 20, 'long_input_deliveries': 2000})
 
 
 def replay(rep):
